@@ -6,6 +6,21 @@ From PG Require Import Lib.Num Lib.Py Lib.Show Gen.CharactGen Charact.Ols Charac
 Import ListNotations.
 Open Scope Z_scope.
 
+(* Carrier for execution: rationals, with the common power of two of numerator and denominator removed after every operation.
+   The implementation's numbers are binary64 values (dyadic rationals): sums and products of them stay compact this way
+   (plain Qplus multiplies the denominators: a 60-point regression reaches 10^5-bit numbers), and the stripping costs a scan of
+   the low bits only (Qred's gcd costs ~25 ms per value). Same definitions as for RNum / DNum, different record of operations. *)
+Fixpoint strip2 (a b : positive) : positive * positive :=
+  match a, b with xO a', xO b' => strip2 a' b' | _, _ => (a, b) end.
+Definition norm2 (q : Q) : Q :=
+  match Qnum q with
+  | Z0 => 0%Q
+  | Zpos a => let '(a', d') := strip2 a (Qden q) in (Zpos a' # d')%Q
+  | Zneg a => let '(a', d') := strip2 a (Qden q) in (Zneg a' # d')%Q end.
+Definition DNum : Num :=
+  mkNum Q norm2 (fun a b => norm2 (a + b)%Q) (fun a b => norm2 (a - b)%Q) (fun a b => norm2 (a * b)%Q) (fun a b => norm2 (a / b)%Q)
+        Qopp (fun a => norm2 (/ a)%Q) Qeq_bool Qltb Qle_bool.
+
 (* square root to 20 decimal digits (only bet_parameters' p_monolayer needs it) *)
 Definition qsqrt (q : Q) : Q :=
   if Qle_bool q 0 then 0%Q else
@@ -22,7 +37,7 @@ Definition mkfl (l : list (Z * Z)) : list Q := map flq l.
 Definition olim (b : bool) (x : Z * Z) : option Q := if b then Some (flq x) else None.
 
 (* impl = [area; c; nm; pm; slope; intercept; r] ; -> (model code, values agree, model min, model max) *)
-Definition bet_cmp (tn td : Z) (r : res (bet_result QNum)) (oc : Z) (impl : list (Z * Z)) : Z * Z * Z * Z :=
+Definition bet_cmp (tn td : Z) (r : res (bet_result DNum)) (oc : Z) (impl : list (Z * Z)) : Z * Z * Z * Z :=
   match r with
   | Err e => (exn_code e, b2z (oc =? exn_code e), 0, 0)
   | Ok b =>
@@ -35,7 +50,7 @@ Definition bet_cmp (tn td : Z) (r : res (bet_result QNum)) (oc : Z) (impl : list
        fst (b_window b), snd (b_window b))
     | _ => (0, 0, 0, 0) end end.
 (* impl = [area; k; nm; slope; intercept; r] *)
-Definition lang_cmp (tn td : Z) (r : res (lang_result QNum)) (oc : Z) (impl : list (Z * Z)) : Z * Z * Z * Z :=
+Definition lang_cmp (tn td : Z) (r : res (lang_result DNum)) (oc : Z) (impl : list (Z * Z)) : Z * Z * Z * Z :=
   match r with
   | Err e => (exn_code e, b2z (oc =? exn_code e), 0, 0)
   | Ok b =>
@@ -49,16 +64,16 @@ Definition lang_cmp (tn td : Z) (r : res (lang_result QNum)) (oc : Z) (impl : li
 Definition lims (use : bool) (blo bhi : bool) (lo hi : Z * Z) : option (option Q * option Q) :=
   if use then Some (olim blo lo, olim bhi hi) else None.
 Definition bet_case (tn td : Z) (p l : list (Z * Z)) (cs : Z * Z) (use blo bhi : bool) (lo hi : Z * Z) (oc : Z) (impl : list (Z * Z)) :=
-  bet_cmp tn td (area_BET_raw QNum qsqrt (mkfl p) (mkfl l) (flq cs) (lims use blo bhi lo hi)) oc impl.
+  bet_cmp tn td (area_BET_raw DNum qsqrt (mkfl p) (mkfl l) (flq cs) (lims use blo bhi lo hi)) oc impl.
 Definition lang_case (tn td : Z) (p l : list (Z * Z)) (cs : Z * Z) (use blo bhi : bool) (lo hi : Z * Z) (oc : Z) (impl : list (Z * Z)) :=
-  lang_cmp tn td (area_langmuir_raw QNum (mkfl p) (mkfl l) (flq cs) (lims use blo bhi lo hi)) oc impl.
+  lang_cmp tn td (area_langmuir_raw DNum (mkfl p) (mkfl l) (flq cs) (lims use blo bhi lo hi)) oc impl.
 
 (* ---- t-plot / alpha-s: impl = [slope; intercept; r; volume; area]; -> (model code: 0 Ok-Some, 20 Ok-None, exn; agree) *)
 From PG Require Import Charact.TPlot Charact.DrDa.
 Definition natsZ (l : list nat) : list Z := map Z.of_nat l.
 Fixpoint zlist_eqb (a b : list Z) : bool :=
   match a, b with [], [] => true | x :: a', y :: b' => (x =? y) && zlist_eqb a' b' | _, _ => false end.
-Definition tp_cmp (tn td : Z) (r : option (tp_result QNum)) (has : bool) (impl : list (Z * Z)) (sec : list Z) : Z * Z :=
+Definition tp_cmp (tn td : Z) (r : option (tp_result DNum)) (has : bool) (impl : list (Z * Z)) (sec : list Z) : Z * Z :=
   match r with
   | None => (20, b2z (negb has))
   | Some t =>
@@ -70,12 +85,12 @@ Definition tp_cmp (tn td : Z) (r : option (tp_result QNum)) (has : bool) (impl :
                && zlist_eqb (natsZ (tp_section t)) sec))
     | _ => (0, 0) end end.
 Definition tplot_case (tn td : Z) (ls ts : list (Z * Z)) (rho M lo hi : Z * Z) (oc : Z) (has : bool) (impl : list (Z * Z)) (sec : list Z) : Z * Z :=
-  match t_plot_raw QNum (mkfl ls) (mkfl ts) (flq rho) (flq M) (flq lo) (flq hi) with
+  match t_plot_raw DNum (mkfl ls) (mkfl ts) (flq rho) (flq M) (flq lo) (flq hi) with
   | Err e => (exn_code e, b2z (oc =? exn_code e))
   | Ok r => let '(c, a) := tp_cmp tn td r has impl sec in (c, if oc =? 0 then a else 0) end.
 Definition alphas_case (tn td : Z) (ls refl : list (Z * Z)) (apt aref rho M lo hi : Z * Z) (oc : Z) (has : bool)
            (impl : list (Z * Z)) (sec : list Z) (curve : list (Z * Z)) : Z * Z :=
-  match alpha_s_raw QNum (mkfl ls) (mkfl refl) (flq apt) (flq aref) (flq rho) (flq M) (flq lo) (flq hi) with
+  match alpha_s_raw DNum (mkfl ls) (mkfl refl) (flq apt) (flq aref) (flq rho) (flq M) (flq lo) (flq hi) with
   | Err e => (exn_code e, b2z (oc =? exn_code e))
   | Ok (r, c) => let '(k, a) := tp_cmp tn td r has impl sec in
                  (k, if (oc =? 0) && all_close tn td c curve then a else 0) end.
@@ -84,10 +99,10 @@ Definition alphas_case (tn td : Z) (ls refl : list (Z * Z)) (apt aref rho M lo h
    impl = [slope; intercept; r]; -> (model code, agree, min, max) *)
 Definition da_case (tn td : Z) (p : list (Z * Z)) (use blo bhi : bool) (lo hi : Z * Z) (xs ys : list (Z * Z)) (oc : Z) (impl : list (Z * Z))
   : Z * Z * Z * Z :=
-  match check3 (da_window_of QNum (mkfl p) (lims use blo bhi lo hi)) with
+  match check3 (da_window_of DNum (mkfl p) (lims use blo bhi lo hi)) with
   | Err e => (exn_code e, b2z (oc =? exn_code e), 0, 0)
   | Ok w =>
-    let f := ols QNum (mkfl xs) (mkfl ys) in
+    let f := ols DNum (mkfl xs) (mkfl ys) in
     match mkfl impl with
     | [s; i; rr] => (0, b2z ((oc =? 0) && close_q tn td (slope f) s && close_ra tn td 1 1000000000000 (intercept f) i
                              && close_ra tn td 1 1000000000 (rsq f) (rr * rr)
